@@ -170,6 +170,50 @@ def build_facts(config="union", callgraph=True):
         return out
 
 
+def build_fixture_facts(name="engine"):
+    """facts of the engine fixture crate /verif/fixtures/<name> (same driver, same flags as the real build)"""
+    src = os.path.join(VERIF, "fixtures", name)
+    with Lock("build-fixture-" + name):
+        ensure_driver()
+        h = hashlib.sha256()
+        for root, dirs, files in os.walk(src):
+            dirs[:] = sorted(d for d in dirs if d != "target")
+            for f in sorted(files):
+                if f.endswith(".rs") or f.endswith(".toml"):
+                    h.update(open(os.path.join(root, f), "rb").read())
+        for root, dirs, files in os.walk(os.path.join(DRIVER_DIR, "src")):
+            for f in sorted(files):
+                h.update(open(os.path.join(root, f), "rb").read())
+        out = os.path.join(CACHE, "facts", f"fixture-{name}-{h.hexdigest()[:16]}")
+        crate = "fv_" + name + "_fixture"
+        if os.path.exists(os.path.join(out, "OK")) and os.path.exists(os.path.join(out, crate + ".facts.jsonl")):
+            os.utime(out)
+            return out, crate
+        shutil.rmtree(out, ignore_errors=True)
+        os.makedirs(out)
+        target = os.path.join(CACHE, "target-fixture-" + name)
+        shutil.rmtree(target, ignore_errors=True)
+        env = dict(os.environ)
+        env.update({
+            "LD_LIBRARY_PATH": nightly_sysroot() + "/lib",
+            "CARGO_NET_OFFLINE": "true",
+            "FV_CRATES": crate,
+            "FV_OUT": out,
+            "FV_CALLGRAPH": "0",
+            "RUSTFLAGS": "-Zmir-opt-level=0 -Coverflow-checks=on -Cdebug-assertions=on -Zalways-encode-mir -Awarnings",
+            "RUSTC_WORKSPACE_WRAPPER": DRIVER_BIN,
+            "CARGO_TARGET_DIR": target,
+        })
+        env.pop("RUSTC_WRAPPER", None)
+        r = subprocess.run(["cargo", "+nightly", "check", "--offline", "--lib"], cwd=src, env=env, stdout=subprocess.PIPE,
+                           stderr=subprocess.STDOUT, text=True)
+        if r.returncode != 0 or not os.path.exists(os.path.join(out, crate + ".facts.jsonl")):
+            sys.stderr.write(r.stdout[-3000:])
+            raise SystemExit("fv: fixture fact extraction failed")
+        open(os.path.join(out, "OK"), "w").write("ok")
+        return out, crate
+
+
 _KRE = re.compile(rb'^\{"k":"([a-z_]+)","crate":"([a-z_]+)"(?:,"path":"((?:[^"\\]|\\.)*)")?')
 
 
@@ -178,8 +222,12 @@ class Facts:
 
     def __init__(self, config="union", callgraph=True):
         self.config = config
-        self.dir = build_facts(config, callgraph)
-        self.crates = CONFIGS[config]["crates"]
+        if config.startswith("fixture:"):
+            self.dir, crate = build_fixture_facts(config.split(":", 1)[1])
+            self.crates = [crate]
+        else:
+            self.dir = build_facts(config, callgraph)
+            self.crates = CONFIGS[config]["crates"]
         self._index = None
         self._body_cache = {}
         self._load_index()
